@@ -3,6 +3,7 @@ import IgVerif.Model.ConfB
 import IgVerif.Model.Closed
 import IgVerif.Model.ModuleOrder
 import IgVerif.Gen.C19Proto
+import IgVerif.Model.Expr
 /-! `igdriver <model>`: reads one op per line on stdin, prints one answer per line.
 Byte strings are hex ("-" = empty). -/
 open IgVerif
@@ -227,10 +228,70 @@ def protoStep (_ : Unit) (toks : List String) : IO (Unit × String) := do
       return ((), s!"exitNonZero={if o.exitNonZero then 1 else 0} lost={if o.lost then 1 else 0}")
   | _ => return ((), "bad-op")
 
+/-! expression s-expressions: `(int 5)` `(bool 1)` `(unknown)` `(un minus E)` `(bin add E E)` `(tern E E E)` `(cast short E)` -/
+def unOpOf : String → Option Ex.UnOp
+  | "lnot" => some .lnot | "bnot" => some .bnot | "minus" => some .minus | "plus" => some .plus | _ => none
+def binOpOf : String → Option Ex.BinOp
+  | "mul" => some .mul | "div" => some .div | "mod" => some .mod | "add" => some .add | "sub" => some .sub
+  | "shl" => some .shl | "shr" => some .shr | "lt" => some .lt | "gt" => some .gt | "le" => some .le | "ge" => some .ge
+  | "eq" => some .eq | "ne" => some .ne | "band" => some .band | "bxor" => some .bxor | "bor" => some .bor
+  | "land" => some .land | "lor" => some .lor | "comma" => some .comma | _ => none
+def castOf : String → Option Ex.CastTo
+  | "bool" => some .bool | "int" => some .int | "short" => some .short | "ushort" => some .ushort | "char" => some .char
+  | "schar" => some .schar | "uchar" => some .uchar | "uint" => some .uint | "long" => some .long | "ulong" => some .ulong | _ => none
+
+def parseSexpr : Nat → List String → Option (Ex.Expr × List String)
+  | 0, _ => none
+  | fuel+1, "(" :: "int" :: n :: ")" :: rest => some (.int (n.toInt?.getD 0), rest)
+  | fuel+1, "(" :: "bool" :: n :: ")" :: rest => some (.bool (n != "0"), rest)
+  | fuel+1, "(" :: "unknown" :: ")" :: rest => some (.unknown, rest)
+  | fuel+1, "(" :: "un" :: op :: rest =>
+    match unOpOf op, parseSexpr fuel rest with
+    | some o, some (e, ")" :: rest') => some (.un o e, rest')
+    | _, _ => none
+  | fuel+1, "(" :: "cast" :: k :: rest =>
+    match castOf k, parseSexpr fuel rest with
+    | some o, some (e, ")" :: rest') => some (.cast o e, rest')
+    | _, _ => none
+  | fuel+1, "(" :: "bin" :: op :: rest =>
+    match binOpOf op, parseSexpr fuel rest with
+    | some o, some (a, rest1) =>
+      match parseSexpr fuel rest1 with
+      | some (b, ")" :: rest2) => some (.bin o a b, rest2)
+      | _ => none
+    | _, _ => none
+  | fuel+1, "(" :: "tern" :: rest =>
+    match parseSexpr fuel rest with
+    | some (c, rest1) =>
+      match parseSexpr fuel rest1 with
+      | some (a, rest2) =>
+        match parseSexpr fuel rest2 with
+        | some (b, ")" :: rest3) => some (.tern c a b, rest3)
+        | _ => none
+      | none => none
+    | none => none
+  | _, _ => none
+
+def exprStep (_ : Unit) (toks : List String) : IO (Unit × String) := do
+  match toks with
+  | "eval" :: rest =>
+    match parseSexpr (rest.length + 1) rest with
+    | some (e, []) =>
+      let r := match Ex.evaluate e with
+        | .int v => s!"int {v}"
+        | .error => "error"
+      let c := match Ex.cxxEval e with
+        | some v => s!"some {v}"
+        | none => "none"
+      return ((), s!"evaluate={r} cxx={c}")
+    | _ => return ((), "bad-op")
+  | _ => return ((), "bad-op")
+
 def main (args : List String) : IO UInt32 := do
   let stdin ← IO.getStdin
   match args with
   | ["db"] => loop stdin dbStep ({} : St); return 0
   | ["order"] => loop stdin orderStep (); return 0
   | ["proto"] => loop stdin protoStep (); return 0
+  | ["expr"] => loop stdin exprStep (); return 0
   | _ => IO.eprintln "usage: igdriver <model>"; return 2
